@@ -539,7 +539,6 @@ package runtime
 //@ like RunStmt
 //@ ensures ctx.stackCur == old(ctx.stackCur) && oldsame(Stack.Data)
 //@ props C01 C04
-//@ intmode bv64
 //@ loop 1
 //@ invariant 0 <= i && length == len(str)
 //@ loop 2
